@@ -185,4 +185,6 @@ theorem parseUint64_digits {body : Bytes} (hne : body ≠ []) (hd : body.all isD
   have := loop_digits max64_lt body 0 (by omega) hd
   simpa using this
 
+theorem trimSpace_nil : trimSpace [] = [] := rfl
+
 end Flamego.Access
